@@ -60,6 +60,7 @@ func podKey(p *corev1.Pod) string { return p.Namespace + "/" + p.Name }
 // the Cfg line); the Hydrate event afterwards shows what the cluster cache ended up with.
 func Materialise(s *Scenario) (*Sim, error) {
 	w := world.New()
+	w.Client = scopedClient(w.Client)
 	sim := &Sim{S: s, W: w, Types: map[string]*cloudprovider.InstanceType{}, podKey: map[types.UID]string{}}
 	sim.Ctx = injection.WithControllerName(world.Ctx(func(o *options.Options) {
 		o.CPURequests = int64(s.Options.Workers) * 1000
@@ -401,6 +402,16 @@ func AbsPod(p *corev1.Pod) Pod {
 	return out
 }
 
+// nodeOf maps a provider id back to the scenario's node name ("-" if it is none of them).
+func (sim *Sim) nodeOf(pid string) string {
+	for _, n := range sim.S.Nodes {
+		if ProviderID(n) == pid {
+			return n.Name
+		}
+	}
+	return "-"
+}
+
 // ErrKind classifies a pod error of Results.PodErrors.
 func ErrKind(err error) string {
 	switch {
@@ -427,7 +438,7 @@ func (sim *Sim) HydrateEvent() trace.M {
 	nodes := []trace.M{}
 	for n := range sim.Cluster.Nodes() {
 		nodes = append(nodes, trace.M{
-			"name": n.Name(), "hostname": n.HostName(), "pid": n.ProviderID(), "managed": n.Managed(), "registered": n.Registered(),
+			"node": sim.nodeOf(n.ProviderID()), "name": n.Name(), "hostname": n.HostName(), "pid": n.ProviderID(), "managed": n.Managed(), "registered": n.Registered(),
 			"initialized": n.Initialized(), "marked": n.MarkedForDeletion(), "deleted": n.Deleted(),
 			"labels": shortLabels(n.Labels()), "taints": absTaints(n.Taints()), "alloc": milliRes(n.Allocatable()),
 			"cap": milliRes(n.Capacity()), "podRequests": milliRes(n.PodRequests()), "daemonRequests": milliRes(n.DaemonSetRequests()),
@@ -468,7 +479,8 @@ func (sim *Sim) ResultsEvent(res pscheduling.Results, runErr error, phase string
 			pods = append(pods, podKey(p))
 			eff = append(eff, AbsPod(p))
 		}
-		existing = append(existing, trace.M{"name": n.Name(), "hostname": n.HostName(), "managed": n.Managed(), "initialized": n.Initialized(), "pods": pods})
+		existing = append(existing, trace.M{"node": sim.nodeOf(n.ProviderID()), "name": n.Name(), "hostname": n.HostName(), "managed": n.Managed(),
+			"initialized": n.Initialized(), "pods": pods})
 	}
 	sort.Slice(existing, func(i, j int) bool { return existing[i]["name"].(string) < existing[j]["name"].(string) })
 	errs := []trace.M{}
